@@ -181,6 +181,7 @@ func cmdCheck(args []string) int {
 	}
 	p := loadAll()
 	// targets
+	var exposed map[string]bool
 	var targets []*FuncInfo
 	for _, n := range p.Order {
 		fi := p.Funcs[n]
@@ -189,7 +190,13 @@ func cmdCheck(args []string) int {
 		}
 		if *prop == "C17" {
 			if strings.HasSuffix(fi.File, "/peg.go") {
-				continue // generated PEG interpreter: out of the subset, covered by the bounded stand-in of C16
+				continue // generated PEG interpreter: out of the subset (it recovers its own panics); bounded stand-in under C16
+			}
+			if exposed == nil {
+				exposed = p.exposedToEntryPoints()
+			}
+			if !exposed[n] {
+				continue // not reachable from a public entry point except below a frame that recovers panics into an error
 			}
 			targets = append(targets, fi)
 			continue
@@ -230,6 +237,11 @@ func cmdCheck(args []string) int {
 			// (invariants and callee preconditions are assumed after being asserted), whatever tag it carries;
 			// safety obligations belong to C17 only
 			supporting := *prop != "C17" && ob.Kind != "safe" && ob.Kind != "cover" && fi.Contract != nil && !(len(ob.Tags) == 1 && ob.Tags[0] == "C17")
+			if *prop == "C17" && ob.Kind != "cover" && fi.Contract != nil {
+				// the sweep assumes every requires / invariant / callee ensures of the exposed functions, whatever its tag:
+				// all of them are obligations of the sweep as well
+				supporting = !(ob.Detached && !hasTag(ob.Tags, "C17"))
+			}
 			if !hasTag(ob.Tags, *prop) && !supporting {
 				continue
 			}
@@ -256,9 +268,13 @@ func cmdCheck(args []string) int {
 		funcsUnder = append(funcsUnder, ob.Func)
 	}
 	// contract binding
+	executed := map[string]bool{}
+	for _, fi := range targets {
+		executed[fi.Name] = true
+	}
 	for _, c := range p.Contracts {
 		for k, l := range c.Loops {
-			if c.bound && !l.seen && hasTag(c.AllTags(), *prop) {
+			if c.bound && !l.seen && executed[c.Func] && oosFuncs[c.Func] == "" {
 				if fi := p.Funcs[c.Func]; fi != nil && (*only == "" || *only == c.Func) {
 					p.BindErrors = append(p.BindErrors, fmt.Sprintf("%s: loop %d of the contract has no loop in the code", c.Func, k))
 				}
@@ -376,6 +392,11 @@ func cmdCheck(args []string) int {
 			// decided by the frame / determinism back end (no solver involved): a new source of shared state or nondeterminism
 			path := writeReplay(replayDir, *prop, ob, p)
 			violations = append(violations, fmt.Sprintf("VIOLATION property=%s replay=%s no-failing-input-found", *prop, path))
+			nObl++
+		} else if !good && *prop == "C17" && (ob.Kind == "safe" || ob.Kind == "pre" || strings.HasPrefix(ob.Name, "safe:") || strings.HasPrefix(ob.Name, "pre:")) && replayConfirmed(writeReplay(replayDir, *prop, ob, p)) {
+			// a new panic site (or a new call whose precondition fails) in code exposed to the entry points, and the panic
+			// corpus makes the working tree panic: a violation with a concrete input
+			violations = append(violations, fmt.Sprintf("VIOLATION property=%s replay=%s", *prop, filepath.Join(replayDir, sanitizeFile(ob.Name)+".json")))
 			nObl++
 		} else if !good {
 			// a new, unclaimed obligation that does not discharge: undecided unless it replays
